@@ -58,6 +58,17 @@ def _check(tr):
     # ---- R1 one row per delivered result, in order, with all values ---------------------
     if len(rows) != len(deliv):
         out.append(V("C17", "R1.row_count", tr, "%d rows for %d delivered results" % (len(rows), len(deliv)), end_seq))
+    # ... where "delivered" means delivered to the *scheduler*: the callback stream (from which the table is built and
+    # which the probe shares) must be the scheduler's stream of on_trial_result calls, with the decision it returned
+    sdel = [c for c in tr.sched if c["m"] == "on_trial_result" and c["exc"] is None and c["s1"] is not None]
+    if tr.exception is None:
+        a = [(c["trial"], c["result"].get("sn"), c["ret"]) for c in sdel]
+        b = [(r.get("trial_id"), r.get("sn"), r.get("st_decision")) for r in rows]
+        if a != b:
+            i = next((k for k, (x, y) in enumerate(zip(a, b)) if x != y), min(len(a), len(b)))
+            out.append(V("C17", "R1.not_scheduler_stream", tr,
+                         "table has %d rows, the scheduler received %d results; first difference at position %d: scheduler %s, row %s" % (
+                             len(b), len(a), i, a[i] if i < len(a) else None, b[i] if i < len(b) else None), end_seq))
     for i, (row, d) in enumerate(zip(rows, deliv)):
         res = d["result"]
         bad = None
